@@ -212,13 +212,16 @@ CHECKS["C01"] = {
     "technique": "exhaustive enumeration of small CrabIR programs built as real cfgs; explicit-state exploration of every concrete execution; every forward invariant checked to contain every reached state",
     "design_ref": "DESIGN.md §2 C01",
     "jobs": [{"bin": "e2_prog", "args": ["--family", "num"], "deadline": {"quick": 420, "thorough": 3000}},
-             {"bin": "e2_prog", "args": ["--family", "bool", "--maxn", "2"], "deadline": {"quick": 200, "thorough": 1200}}],
+             {"bin": "e2_prog", "args": ["--family", "bool", "--maxn", "2"], "deadline": {"quick": 200, "thorough": 1200}},
+             {"bin": "e2_prog", "args": ["--family", "num", "--alpha", "2", "--maxn", "2", "--second", "1"], "deadline": {"quick": 300, "thorough": 1200}}],
     "rule": ("all CFG skeletons with n<=3 blocks (every edge set: entry with predecessors, self loops, nested and irreducible cycles, unreachable "
              "blocks) x every assignment of <=1 statement per block from an alphabet of 9 (quick) / 14 (thorough) statements over x,y (constants, "
              "increments, copies, sums, havoc, assumes incl. strict and disequalities, multiplication), plus two-statement blocks for n=2; boolean "
              "family over x,y,b1 for the flat boolean domains; x 2 (3) initial values x 8 (20) domains x 3 (7) fixpoint parameter tuples "
              "(widening delay, descending iterations, thresholds, liveness pruning). For every block, every concrete state arriving at / leaving "
-             "it must satisfy M1-M4 of get_pre / get_post. distinct_nontrivial = distinct printed invariants of the last block."),
+             "it must satisfy M1-M4 of get_pre / get_post. distinct_nontrivial = distinct printed invariants of the last block. "
+             "Job 3: n<=2 blocks with the 25-statement alphabet (adds *2, -1, disequalities, equalities, /2, %2, &1, >>1, x*y, both select forms, "
+             "negation, unreachable, ...) and every two-statement block."),
     "assumptions": _E2_ASSUME,
     "level_text": "Complete enumeration of the stated program space; each program's concrete state space is explored exhaustively within the horizon and every analysis runs on the real analyzer.",
     "level_note": "Programs with more than 3 blocks / 1-2 statements per block, other statement kinds and values outside the box are not covered.",
@@ -230,12 +233,14 @@ CHECKS["C02"] = {
     "design_ref": "DESIGN.md §2 C02",
     "jobs": [{"bin": "e2_prog", "args": ["--family", "num"], "deadline": {"quick": 420, "thorough": 3000}},
              {"bin": "e2_prog", "args": ["--family", "bool", "--maxn", "2"], "deadline": {"quick": 200, "thorough": 1200}},
+             {"bin": "e2_prog", "args": ["--family", "num", "--alpha", "2", "--maxn", "2", "--second", "1"], "deadline": {"quick": 300, "thorough": 1200}},
              {"bin": "c09_inter", "deadline": {"quick": 300, "thorough": 2400}}],
     "rule": ("the C01 program space restricted to programs containing at least one assertion (numeric assert(x<=1), assert(x>=0), assert(x<=y); "
              "bool_assert in the boolean family), each occurrence with its own debug id. For every domain / fixpoint parameter tuple: "
              "intra_fwd_analyzer + intra_checker(assert_property_checker), and intra_forward_backward_analyzer with enable_backward x "
              "max_refine_iterations {0,1,5} x use_refined_invariants + intra_checker. SAFE => no explored execution reaches the assertion with a "
-             "false condition; UNREACHABLE => no explored execution reaches it. Warnings are never judged. Job 3: the C09 call-graph space with an "
+             "false condition; UNREACHABLE => no explored execution reaches it. Warnings are never judged. Job 3: n<=2 blocks with the 25-statement alphabet (division, remainder, bitwise, "
+             "multiplication, both select forms, unreachable, ...) and every two-statement block (statement; assertion). Job 4: the C09 call-graph space with an "
              "assertion in main: verdicts of the checker interleaved with the top-down inter-procedural analysis (every parameter tuple) and of "
              "inter_checker on the bottom-up analyzer (every domain pair) against the tabulated concrete oracle."),
     "assumptions": _E2_ASSUME,
@@ -248,12 +253,13 @@ CHECKS["C05"] = {
     "technique": "every analysis of the enumerated loop-bearing programs runs under a deterministic fixpoint-iteration budget (hook CRAB_VERIF_TICK); widening chains explored exhaustively over transformer alphabets",
     "design_ref": "DESIGN.md §2 C05",
     "jobs": [{"bin": "e2_prog", "args": ["--family", "num"], "deadline": {"quick": 420, "thorough": 3000}},
+             {"bin": "e2_prog", "args": ["--family", "num", "--alpha", "2", "--maxn", "2", "--second", "1"], "deadline": {"quick": 300, "thorough": 1200}},
              {"bin": "c09_inter", "deadline": {"quick": 300, "thorough": 2400}}],
     "rule": ("the C01 program space restricted to programs with a cycle, every domain / fixpoint parameter tuple: the forward analysis must finish "
              "within 20000 fixpoint iterations (ascending + descending, counted by the tick hook placed in the wto cycle loops, the kill/gen "
              "iterator, the forward-backward refinement loop and the inter-procedural recursion). max.max_fixpoint_ticks reports the maximum observed. "
-             "Job 2: every top-down and bottom-up inter-procedural analysis of the C09 call-graph space (recursive functions, precise recursion "
-             "fixpoints) under a budget of 200000 iterations."),
+             "Job 2: n<=2 blocks, 25-statement alphabet, two-statement blocks. Job 3: every top-down and bottom-up inter-procedural analysis of the C09 call-graph space (recursive functions, precise recursion "
+             "fixpoints) under a budget of 3000 iterations (the maximum observed on the unchanged tree is below 100)."),
     "assumptions": ["budget 20000 is >50x the maximum observed on the unchanged tree; a violation is replayable because the budget is an iteration count, not wall-clock time"],
     "level_text": "Complete enumeration of the stated program space; non-termination is a deterministic, replayable verdict.",
     "level_note": "Widening/narrowing soundness clauses (result contains the arguments) are checked at operator level by C03/C04/C08.",
@@ -306,7 +312,7 @@ CHECKS["C11"] = {
     "jobs": [{"bin": "e2_prog", "args": ["--family", "num", "--alpha", "0"], "deadline": {"quick": 300, "thorough": 2400}},
              {"bin": "e2_prog", "args": ["--family", "num", "--alpha", "2", "--maxn", "2", "--second", "1"], "deadline": {"quick": 300, "thorough": 1200}}],
     "rule": ("job 1: the C01 program space (n<=3 blocks, 9-statement core alphabet + 3 assertions, all edge sets with an exit block); job 2: n<=2 "
-             "with the 24-statement alphabet (adds *2, -1, disequalities, equalities, y:=1, y:=0, /2, %2, &1, >>1, x*y, select, negation, "
+             "with the 25-statement alphabet (adds *2, -1, disequalities, equalities, y:=1, y:=0, /2, %2, &1, >>1, x*y, select, negation, "
              "unreachable) and every two-statement block. For each program the concrete graph over the value box is built from every (block, "
              "state) root and the sets 'can go on to violate an assertion' / 'can reach the exit in a final state satisfying F' (F in {true, x<=0, "
              "x>=1}) are computed by backward propagation to a fixpoint. The real backward analysis (error mode: assertions as sources; good "
@@ -315,6 +321,28 @@ CHECKS["C11"] = {
     "assumptions": _E2_ASSUME,
     "level_text": "Complete enumeration of the stated program space; co-reachability is decided on the explicit concrete graph.",
     "level_note": "Horizon-truncated executions only make the oracle smaller (fewer required states), never larger.",
+}
+
+CHECKS["C14"] = {
+    "level": "model_checking",
+    "technique": "bounded-exhaustive exploration of array-operation histories on the real array domains, executed in lock-step on sets of concrete witnesses (scalars + cell contents); after every step every cell of every witness is read back through array_load (constant index and symbolic index) and compared",
+    "design_ref": "DESIGN.md §2 C14",
+    "jobs": [{"bin": "c14_arrays", "deadline": {"quick": 300, "thorough": 3000}}],
+    "rule": ("two int arrays A, A2 with element size 4 and 6 cells, a single-cell array S, scalars x, y, i; alphabet of 25 core operations "
+             "(array_init on full / partial ranges, stores at constant indices 0/4/8, at the symbolic index i and i+4, range stores, array_assign, "
+             "loads at constant and symbolic indices, i:=0, i:=i+4, i:=nondet{0,4,8}, x:=x+1, the strong-update store on S, save / join / widening "
+             "with the saved state) + 18 extended operations (second array, range stores with symbolic bounds, assumes on i, meet, swap). All "
+             "histories of depth <=4 (core) and <=3 (everything) with subtree pruning on identical (abstract state, "
+             "witness set) pairs; 7 domains (array_smashing over intervals / zones / disjunctive intervals, array_adaptive over intervals / "
+             "zones / flat-boolean / term) x 1-4 (16) array_adaptive parameter tuples (is_smashable, smash_at_nonzero_offset, max_smashable_cells, "
+             "max_array_size in {0,1/2,64}). Clauses: a state with a concrete witness is never bottom, also not after a load; scalars of every "
+             "witness satisfy M1/M3; for every written cell, at(t) after t:=A[k] contains the cell value, likewise for t:=A[i] at the witness's i."),
+    "assumptions": ["uniform element size (documented word-level assumption)",
+                    "a store is flagged is_strong_update only on the single-cell array (the flag is the client's claim that the store overwrites the whole array)",
+                    "a cell never written since the array was made (array_init makes a fresh array) is outside the model: reading it drops the witness",
+                    "range stores use upper bounds on which the documented (k<ub) and implemented (k<=ub) readings agree"],
+    "level_text": "Complete enumeration of operation histories up to the stated depths over the stated alphabets, for every listed domain and parameter tuple.",
+    "level_note": "Pruning merges two histories only if the abstract state's complete printed form and the witness sets coincide.",
 }
 
 CHECKS["C17"] = {
